@@ -71,10 +71,22 @@ fn main() {
             }
             _ => Some(1),
         };
-        zf::read_all(&text, &zf::ReadOpts {
+        let mut obs = zf::read_all(&text, &zf::ReadOpts {
             origin: origin.as_deref(),
             default_class: class,
             allow_invalid: false,
-        })
+        });
+        // integer-boundary cases: TLC's integers end at 2^31 - 1, so the TTL is
+        // compared as four big-endian octets
+        if input.get("ttl_octets").is_some() {
+            if let Some(es) = obs.get_mut("entries").and_then(|e| e.as_array_mut()) {
+                for e in es.iter_mut() {
+                    if let Some(t) = e.get("ttl").and_then(|t| t.as_u64()) {
+                        e["ttl"] = json_bytes(&(t as u32).to_be_bytes());
+                    }
+                }
+            }
+        }
+        obs
     });
 }
